@@ -341,6 +341,10 @@ pub enum PAct {
     ResetStorm(u8),
     /// a non-contributing message on every one of the 16 channels
     TouchAll,
+    /// one CONTRIBUTING Control Change (the first of the alphabet, value 1) on each of the 15 OTHER
+    /// channels: many channels hold progress at once ("which channels were touched" bookkeeping
+    /// with a small fixed capacity shows at the next reset)
+    ProgressAll,
     /// a short cycle of Control Changes repeated `pump_reps` times in one step, every feed judged by
     /// the oracle (index into `pump_cycles`): counters that leak or wrap after hundreds of rounds
     Pump(u16),
@@ -636,6 +640,16 @@ impl<O: PlainOracle> PlainSys<O> {
                 }
                 Step { strict: true, next: Some(PState { sc, m: s.m.clone() }), obs: 0, violations: v }
             }
+            PAct::ProgressAll => {
+                let mut sc = s.sc;
+                let ctrl = self.alphabet[0].0;
+                for c in 0..16u8 {
+                    if c != self.ch {
+                        let _ = sc.feed_msg(&cc(c, ctrl, 1));
+                    }
+                }
+                Step { strict: true, next: Some(PState { sc, m: s.m.clone() }), obs: 0, violations: Vec::new() }
+            }
             PAct::Pump(i) => {
                 let n = self.pump_cycles.len();
                 if (*i as usize) < n {
@@ -707,6 +721,9 @@ impl<O: PlainOracle> System for PlainSys<O> {
             }
         }
         out.push(PAct::TouchAll);
+        if depth <= 1 && self.with_reset && self.report.reset {
+            out.push(PAct::ProgressAll);
+        }
         if depth <= STORM_DEPTH {
             for i in 0..self.pump_cycles.len() {
                 out.push(PAct::Pump(i as u16));
@@ -746,10 +763,10 @@ impl<O: PlainOracle> System for PlainSys<O> {
         Some(debug_fp(&s.sc, 0, 0))
     }
     fn n_classes(&self) -> usize {
-        9
+        10
     }
     fn class_name(&self, i: usize) -> String {
-        ["feed-contributing-cc", "feed-cc-probe(concretisation)", "feed-must-be-transparent", "reset", "reset-probe", "feed-non-contributing(expanded)", "reset-storm", "touch-all-16-channels", "pumped-cycle"][i].to_string()
+        ["feed-contributing-cc", "feed-cc-probe(concretisation)", "feed-must-be-transparent", "reset", "reset-probe", "feed-non-contributing(expanded)", "reset-storm", "touch-all-16-channels", "pumped-cycle", "progress-on-15-other-channels"][i].to_string()
     }
     fn class_of(&self, a: &PAct) -> usize {
         match a {
@@ -762,6 +779,7 @@ impl<O: PlainOracle> System for PlainSys<O> {
             PAct::ResetStorm(..) => 6,
             PAct::TouchAll => 7,
             PAct::Pump(..) => 8,
+            PAct::ProgressAll => 9,
         }
     }
     fn render(&self, a: &PAct) -> String {
@@ -780,6 +798,7 @@ impl<O: PlainOracle> System for PlainSys<O> {
             PAct::ResetProbe => "resetprobe".to_string(),
             PAct::ResetStorm(i) => format!("resetstorm:{}:{}", self.storms[*i as usize].0, self.storms[*i as usize].1),
             PAct::TouchAll => "touchall".to_string(),
+            PAct::ProgressAll => "progressall".to_string(),
             PAct::Pump(i) => {
                 let n = self.pump_cycles.len();
                 let (reps, c) = if (*i as usize) < n { (self.pump_reps, &self.pump_cycles[*i as usize]) } else { (70_000, &self.pump_cycles[*i as usize - n]) };
@@ -811,6 +830,7 @@ impl<O: PlainOracle> System for PlainSys<O> {
                 }
             }
             PAct::TouchAll => "for c in 0..16 { scanner.feed(&helgoboss_midi::test_util::note_on(c, 1, 1)); }".to_string(),
+            PAct::ProgressAll => format!("for c in 0..16 {{ if c != {} {{ scanner.feed(&helgoboss_midi::test_util::control_change(c, {}, 1)); }} }}", self.ch, self.alphabet[0].0),
             PAct::Pump(i) => {
                 let n = self.pump_cycles.len();
                 let (reps, c) = if (*i as usize) < n { (self.pump_reps, &self.pump_cycles[*i as usize]) } else { (70_000, &self.pump_cycles[*i as usize - n]) };
